@@ -379,10 +379,12 @@ def cylinderMeshN (cls : Nat) (radius length : α) (n : Nat) : Except Err (Mesh 
 
 /-- `make_tetrahedral_cylinder(radius, length, resolution_hint)` -/
 def makeTetrahedralCylinder (radius length resolutionHint : α) (fuel : Nat) :
-    Except Err (Mesh α) := do
-  if resolutionHint = 0 then throw .divZero
-  let n ← ceilMax3 (2 * piLit * radius / resolutionHint) fuel
-  cylinderMeshN (cylinderClass radius length) radius length n
+    Except Err (Mesh α) :=
+  if resolutionHint = 0 then .error .divZero
+  else
+    match ceilMax3 (2 * piLit * radius / resolutionHint) fuel with
+    | .error e => .error e
+    | .ok n => cylinderMeshN (cylinderClass radius length) radius length n
 
 end trig
 
@@ -463,35 +465,45 @@ def normalizeRow (radius : α) (p : V3 α) : Except Err (V3 α) :=
 subdivision never writes stay zero (→ 0/0 in the normalisation: `divZero`); a write past the
 allocated rows is an `IndexError`. -/
 def makeTriangularIcosphere (center : V3 α) (radius : α) (order : Nat) :
-    Except Err (List (V3 α) × List (Nat × Nat × Nat)) := do
-  let (tris, st) := icoTopology order
+    Except Err (List (V3 α) × List (Nat × Nat × Nat)) :=
+  let topo := icoTopology order
   let n := icoVertexCount order
-  if st.v > n then throw .indexOOB
-  let vs ← icoMidpoints icoVertices0 st.parents
-  let vs := vs ++ List.replicate (n - vs.length) V3.zero
-  let vs ← vs.mapM (normalizeRow radius)
-  pure (vs.map (· + center), tris)
+  if topo.2.v > n then .error .indexOOB
+  else
+    match icoMidpoints (icoVertices0 (α := α)) topo.2.parents with
+    | .error e => .error e
+    | .ok vs =>
+      match (vs ++ List.replicate (n - vs.length) V3.zero).mapM (normalizeRow radius) with
+      | .error e => .error e
+      | .ok vs => .ok (vs.map (· + center), topo.1)
 
 /-- `np.hstack((triangles, center_idx * ones))` -/
 def fanTets (tris : List (Nat × Nat × Nat)) (centerIdx : Nat) : List Tet :=
   tris.map fun (a, b, c) => ⟨a, b, c, centerIdx⟩
 
 /-- `make_tetrahedral_sphere(radius, order)` -/
-def makeTetrahedralSphere (radius : α) (order : Nat) : Except Err (Mesh α) := do
-  let (vs, tris) ← makeTriangularIcosphere V3.zero radius order
-  let centerIdx := vs.length
-  pure { vertices := vs ++ [V3.zero]
-         tets := fanTets tris centerIdx
-         potentials := List.replicate vs.length 0 ++ [radius] }
+def makeTetrahedralSphere (radius : α) (order : Nat) : Except Err (Mesh α) :=
+  match makeTriangularIcosphere V3.zero radius order with
+  | .error e => .error e
+  | .ok (vs, tris) =>
+    let centerIdx := vs.length
+    .ok { vertices := vs ++ [V3.zero]
+          tets := fanTets tris centerIdx
+          potentials := List.replicate vs.length 0 ++ [radius] }
+
+/-- `vertices *= radii[np.newaxis]` on one row -/
+def scaleRow (radii p : V3 α) : V3 α := ⟨p.x * radii.x, p.y * radii.y, p.z * radii.z⟩
 
 /-- `make_tetrahedral_ellipsoid(radii, order)` -/
-def makeTetrahedralEllipsoid (radii : V3 α) (order : Nat) : Except Err (Mesh α) := do
-  let (vs, tris) ← makeTriangularIcosphere V3.zero 1 order
-  let vs := vs.map fun p => (⟨p.x * radii.x, p.y * radii.y, p.z * radii.z⟩ : V3 α)
-  let centerIdx := vs.length
-  pure { vertices := vs ++ [V3.zero]
-         tets := fanTets tris centerIdx
-         potentials := List.replicate vs.length 0 ++ [min (min radii.x radii.y) radii.z] }
+def makeTetrahedralEllipsoid (radii : V3 α) (order : Nat) : Except Err (Mesh α) :=
+  match makeTriangularIcosphere V3.zero 1 order with
+  | .error e => .error e
+  | .ok (vs0, tris) =>
+    let vs := vs0.map (scaleRow radii)
+    let centerIdx := vs.length
+    .ok { vertices := vs ++ [V3.zero]
+          tets := fanTets tris centerIdx
+          potentials := List.replicate vs.length 0 ++ [min (min radii.x radii.y) radii.z] }
 
 /-! ## `make_tetrahedral_capsule` -/
 
